@@ -632,7 +632,7 @@ macro_rules! h2_call {
             )
         };
         log(&x5, Ev::Return { what: format!("{:?}", res) }, queue.max(usize::MAX));
-        (res, rset_inits.load(Ordering::SeqCst))
+        (res, rset_inits.load(Ordering::SeqCst), rec_inits.load(Ordering::SeqCst))
     }};
 }
 
@@ -643,7 +643,7 @@ pub fn run_h2(c: &H2, x: &ExecRef) {
         *e = Exec::default();
         e.turn = turn;
     }
-    let (res, rset_inits) = match c.format {
+    let (res, rset_inits, rec_inits) = match c.format {
         Fmt::Fasta => {
             use seq_io::fasta::Record;
             h2_call!(c, x, fasta, parallel_fasta_init, parallel_fasta, |rec: &seq_io::fasta::RefRecord| format!("{}|{}", String::from_utf8_lossy(rec.head()), String::from_utf8_lossy(&rec.owned_seq())))
@@ -653,10 +653,10 @@ pub fn run_h2(c: &H2, x: &ExecRef) {
             h2_call!(c, x, fastq, parallel_fastq_init, parallel_fastq, |rec: &seq_io::fastq::RefRecord| format!("{}|{}|{}", String::from_utf8_lossy(rec.head()), String::from_utf8_lossy(rec.seq()), String::from_utf8_lossy(rec.qual())))
         }
     };
-    check_h2(c, x, &res, rset_inits);
+    check_h2(c, x, &res, rset_inits, rec_inits);
 }
 
-fn check_h2(c: &H2, x: &ExecRef, res: &Result<Option<usize>, PErr>, rset_inits: usize) {
+fn check_h2(c: &H2, x: &ExecRef, res: &Result<Option<usize>, PErr>, rset_inits: usize, rec_inits: usize) {
     let (seq, seq_err) = sequential(c);
     let recv: Vec<(usize, String)> = {
         let e = x.lock();
@@ -664,6 +664,27 @@ fn check_h2(c: &H2, x: &ExecRef, res: &Result<Option<usize>, PErr>, rset_inits: 
     };
     if !c.plain && rset_inits > c.queue + 1 {
         violate(x, "too-many-datasets", format!("{} record-set data sets created with queue length {}", rset_inits, c.queue));
+    }
+    // C16: per-record output slots are recycled with their data set: a slot is created only when a data
+    // set meets a bigger record set than ever before, so creations <= sum over data sets of the
+    // largest set each has carried (draining runs of the _init variant, where sets carry their tag)
+    if !c.plain && c.stop_at.is_none() && res.as_ref().map_or(false, |r| r.is_none()) {
+        let mut max_of: std::collections::BTreeMap<usize, usize> = Default::default();
+        let mut i = 0;
+        while i < recv.len() {
+            let tag = recv[i].0;
+            let mut j = i;
+            while j < recv.len() && recv[j].0 == tag {
+                j += 1;
+            }
+            let e = max_of.entry(tag).or_insert(0);
+            *e = (*e).max(j - i);
+            i = j;
+        }
+        let bound: usize = max_of.values().sum();
+        if rset_inits >= 2 && rec_inits > bound {
+            violate(x, "output-slots-recreated", format!("{} per-record output values created, but the data sets carried at most {:?} records each (sum {}): outputs are not recycled with their data set", rec_inits, max_of, bound));
+        }
     }
     // every received record is a record of the input, at most once, sets are contiguous runs in file order
     let mut pos_of = vec![];
